@@ -154,6 +154,29 @@ def handleN (payload : String) : String :=
     fmtRes (runNodeS I R (parseNode node))
   | _ => "bad"
 
+open N2 in
+/-- `PC`: `precompute_problem` as the model has it — rows, columns, column → course map, first column of
+    every course, dummy rows, always-skipped rows, padded room list and the weight matrix (row-major) -/
+def handlePC (payload : String) : String :=
+  match payload.splitOn "#" with
+  | [cs, ps, rooms] =>
+    let (I, _) := parseInst cs ps rooms
+    if !I.precomputeOk then "P precompute" else
+    let n := I.n
+    let m := I.m
+    let b2s (b : Bool) : String := if b then "1" else "0"
+    let colc := ",".intercalate ((List.range m).map (fun cp => toString (I.colCourse cp)))
+    let invs := ",".intercalate ((List.range I.C).map (fun c => toString (inv I c)))
+    let dummy := "".intercalate ((List.range n).map (fun x => b2s (decide (I.P ≤ x))))
+    let skip := "".intercalate ((List.range n).map (fun x => b2s (decide (x < I.P) && I.instructorOnly x)))
+    let rs := match I.roomSizes with
+      | none => "-"
+      | some l => ",".intercalate (l.map toString)
+    let w := ";".intercalate ((List.range n).map (fun x =>
+      ",".intercalate ((List.range m).map (fun cp => toString (I.weight x cp)))))
+    s!"n={n} m={m} col={colc} inv={invs} dummy={dummy} skip={skip} rooms={rs} w={w}"
+  | _ => "bad"
+
 def parseAssign (s : String) : Array (Option Nat) :=
   if s == "" then #[] else ((s.splitOn ",").map (fun x => if x == "_" then none else some x.toNat!)).toArray
 
@@ -877,6 +900,7 @@ def dispatch (line : String) : String :=
     | "HO" => handleHO payload
     | "HS" => handleHS payload
     | "N" => handleN payload
+    | "PC" => handlePC payload
     | "A" => handleA payload
     | "B" => handleB payload
     | "S" => handleS payload
